@@ -13,13 +13,14 @@ from .terms import (V, PyC, Tup, ClassRef, Closure, ExcVal, asV, tobool, app, pr
                     EXC_CODE, EXC_CLASSES, truthy)
 
 MODULE_ALIASES = {"np", "sym", "os", "copy", "warnings", "antlr4", "re", "nx", "isomorphism", "sys", "blackbirdParser"}
-BUILTIN_TYPES = {"int", "float", "complex", "str", "bool", "list", "tuple", "dict", "set"}
+BUILTIN_TYPES = {"int", "float", "complex", "str", "bool", "list", "tuple", "dict", "set", "object"}
 # properties of BlackbirdProgram whose getters return the field (each getter is itself under contract: program.py sidecar)
 PROPERTY_FIELDS = {"name": "_name", "version": "_version", "modes": "_modes", "target": "_target", "programtype": "_type", "operations": "_operations",
                    "variables": "_var", "program": "_program"}
 
 
-SPEC_PREDS = {"IS_INTKIND": "is_intkind", "IS_NEGATIVE": "is_negative", "IS_DICT": "is_dict"}
+OBJECT_METHODS = {"removeErrorListeners", "addErrorListener", "start", "walk"}
+SPEC_PREDS = {"IS_COMPLEXKIND": "is_complexkind", "IS_INTKIND": "is_intkind", "IS_NEGATIVE": "is_negative", "IS_DICT": "is_dict"}
 
 
 class Contract:
@@ -204,7 +205,17 @@ class Ctx:
         p.conds.append(o != NONE)
 
     def attr_hook(self, ex, p, obj, attr, default):
+        if attr == "parameters":
+            # BlackbirdProgram.parameters (property): the set of the parameters' names -- getter verified in the program.py sidecar
+            o = asV(obj)
+            hk = (o.sexpr(), "_parameters")
+            cur = p.heap[hk] if hk in p.heap else app("attr__parameters", o)
+            return app("PARAMSET", asV(cur))
         return default
+
+    def field_of(self, attr):
+        """properties of BlackbirdProgram / BlackbirdListener read through their getters (each getter is under contract)"""
+        return PROPERTY_FIELDS.get(attr, attr)
 
     def elem_facts(self, xs, elem):
         return []
@@ -212,7 +223,7 @@ class Ctx:
     def module_name(self, ex, n):
         if n in MODULE_ALIASES:
             return ClassRef("module:" + n)
-        if n in BUILTIN_TYPES or n in EXC_CODE or n == "Iterable" or n == "Exception":
+        if n in BUILTIN_TYPES or n in EXC_CODE or n in ("Iterable", "Exception", "SyntaxWarning", "UserWarning", "DeprecationWarning"):
             return ClassRef(n)
         if n in self.contracts or n in self.specs or n in lib.FUNCS:
             return ClassRef("func:" + n)
@@ -361,6 +372,8 @@ class Ctx:
                     cur = l.get(p)
                     if cur is not None and not isinstance(cur, (ClassRef,)):
                         return self.mutate(ex, e, l, mname, args, kwargs, p)
+            if mname in OBJECT_METHODS:
+                return self.object_method(ex, e, f, mname, args, kwargs, p)
             res = []
             for obj, p2 in ex.ev(f.value, p):
                 self.none_check(ex, p2, obj, f)
@@ -441,7 +454,10 @@ class Ctx:
             if nm not in env:
                 env[nm] = ex.ev(dflt, p)[0][0]
         sub = Exec(self, ex.side, ex.fname)
+        sub.fn_locals = {n.id for n in ast.walk(fdef) if isinstance(n, ast.Name) and isinstance(n.ctx, ast.Store)} - set(self.cur_globals)
         sub.loop_hook = ex.loop_hook
+        sub.try_depth = ex.try_depth
+        sub.pure = ex.pure
         sub.writes = ex.writes
         q = p.copy()
         q.env = env
@@ -461,6 +477,43 @@ class Ctx:
             q3.env = dict(p.env)
             res.append((o.value, q3))
         return res
+
+    def object_method(self, ex, e, f, mname, args, kwargs, p):
+        """methods of opaque library objects (antlr4 parser / walker): the receiver is updated in place (state threading keeps the
+        order of calls observable), the call may raise, the result is a function of receiver state and arguments"""
+        l = ex.loc(f.value, p)
+        if l is None:
+            raise Unsupported("method .%s on a value without location" % mname, e)
+        self.assumed.add("A-antlr-tree")
+        q = p.copy()
+        cur = asV(l.get(q))
+        av = [asV(a) for a in args]
+        if mname == "walk":
+            # ParseTreeWalker.walk(listener, tree): runs the listener's handlers over the tree (A-antlr-walk): the listener object and the
+            # module tables are whatever the handlers make of them -- a function of listener, tree and the tables
+            self.assumed.add("A-antlr-walk")
+            state = [asV(q.glob[g]) for g in self.cur_globals if g in q.glob]
+            q = ex.may_raise(q, code("WALK", av[0], av[1], *state), app("WALK_msg", av[0], av[1], *state), e.lineno)
+            if q is None:
+                return []
+            q = q.copy()
+            larg = ex.loc(e.args[0], q)
+            if larg is None:
+                raise Unsupported("walk(listener, ...) with a listener that is not a variable", e)
+            larg.set(q, app("WALKED", av[0], av[1], *state))
+            ex.note_write(larg.key)
+            for g in self.cur_globals:
+                if g in q.glob:
+                    q.glob[g] = app("WALK_post_" + g, av[0], av[1], *state)
+                    ex.note_write("global:" + g)
+            return [(PyC(None), q)]
+        q = ex.may_raise(q, code("meth_" + mname, cur, *av), app("meth_%s_msg" % mname, cur, *av), e.lineno)
+        if q is None:
+            return []
+        q = q.copy()
+        l.set(q, app("meth_" + mname, cur, *av))
+        ex.note_write(l.key)
+        return [(app("ret_" + mname, cur, *av), q)]
 
     def mutate(self, ex, e, l, mname, args, kwargs, p):
         q = p.copy()
@@ -483,11 +536,10 @@ class Ctx:
         elif mname == "insert":
             new = app("list_insert", asV(cur), a[0], a[1])
         elif mname == "remove":
-            c = code("list_remove", asV(cur), a[0])
-            pe = q.assume(c != 0)
-            if ex.feasible(pe):
-                ex.raise_(pe, c, None, e.lineno)
-            q = q.assume(c == 0)
+            q = ex.may_raise(q, code("list_remove", asV(cur), a[0]), None, e.lineno)
+            if q is None:
+                return []
+            q = q.copy()
             new = app("list_remove", asV(cur), a[0])
         elif mname == "pop" and len(args) == 2:
             new = app("dict_discard", asV(cur), a[0])
@@ -555,14 +607,12 @@ class Ctx:
         q = p.copy()
         ccode = code(nm, *allv)
         if c.raises != []:
-            pe = q.assume(ccode != 0)
             if c.raises != "any":
-                pe = pe.assume(T.code_in(ccode, c.raises))
-            if ex.feasible(pe):
-                ex.raise_(pe, ccode, app(nm + "!msg", *allv), getattr(e, "lineno", None))
-        q = q.assume(ccode == 0)
-        if not ex.feasible(q):
-            return []
+                q.conds.append(z3.Or(ccode == 0, T.code_in(ccode, c.raises)))
+            q = ex.may_raise(q, ccode, app(nm + "!msg", *allv), getattr(e, "lineno", None))
+            if q is None:
+                return []
+            q = q.copy()
         for m in c.modifies:
             l = self.resolve_comp(ex, m, binding, q)
             l.set(q, app("%s!post!%s" % (nm, m), *allv))
